@@ -42,15 +42,17 @@ func c29lCheck(c c29lCase, res *batch.Result, run runFunc, r *ev.Recorder) *Fail
 	m := c.B.C.M
 	// only assignments that satisfy exactly one conjunction are used
 	var good []int
+	altOf := map[int]int{} // assignment -> the alternative it satisfies
 	for asg := 0; asg < 1<<m; asg++ {
 		n := 0
-		for _, a := range c.B.C.Alts {
+		for ai, a := range c.B.C.Alts {
 			ok := true
 			for _, p := range a.Preds {
 				ok = ok && (asg&(1<<p.In) != 0) != p.Neg
 			}
 			if ok {
 				n++
+				altOf[asg] = ai
 			}
 		}
 		if n == 1 {
@@ -84,7 +86,7 @@ func c29lCheck(c c29lCase, res *batch.Result, run runFunc, r *ev.Recorder) *Fail
 					sb.WriteByte('F')
 				}
 			}
-			sb.WriteByte(';')
+			sb.WriteString(";" + c.B.tail(altOf[asg]))
 		}
 		src := sb.String()
 		short := fmt.Sprintf("input of %d items (%d tokens); grammar:\n%s", items, len(src), c.B.render("g"))
